@@ -95,6 +95,8 @@ def classify(problem):
         return 'fault-free-backup-errors'
     if 'follow-up backup' in p:
         return 'follow-up-backup-fails'
+    if 'for the version list' in p or 'is listed as' in p:
+        return 'version-list'
     if 'band selection LatestClosed' in p:
         return 'latest-complete-selection'
     if 'reports errors' in p and 'listing band' in p:
@@ -139,6 +141,10 @@ def reproduced(kind, out, bad):
     if kind == 'follow-up-backup-fails':
         return not out.get('follow_up_ok', True) or bool(out.get('follow_up_errors')) or bool(out.get('follow_up_mismatches')) \
             or not out.get('follow_up_restore_ok', True)
+    if kind == 'version-list':
+        # natively: Band::open/get_info fails for a band with a head, or says closed for a band without a complete tail
+        return any((v.get('info') or {}).get('ok') is False and 'open_err' not in (v.get('info') or {}) for v in versions) or \
+            any((v.get('info') or {}).get('ok') and bool(v['info'].get('is_closed')) != bool(v.get('closed')) for v in versions)
     if kind == 'latest-complete-selection':
         # natively: LatestClosed fails (or names another band) although a band with a tail exists
         closed = [v['band'] for v in versions if v.get('closed')]
